@@ -10,6 +10,8 @@ TSP/ATSP is compared through the model's `batchStep`; the checkers get family-sp
 from __future__ import annotations
 
 import itertools
+import math
+from fractions import Fraction
 from typing import List
 
 import envcorr
@@ -59,9 +61,50 @@ def _acts(a):
     return " ".join(map(str, a))
 
 
+# ------------------------------------------------------------------------------------------------
+# configurations (constructor / generator options) and instance representation
+# ------------------------------------------------------------------------------------------------
+# A configuration = keyword arguments of the env constructor + generator parameters.  Configurations
+# with generator parameters draw their instances from the repo's own generator built with those
+# parameters (generic stream: float32 data, rewards compared with a tolerance); the others use the
+# exact stream (hand-built instances whose float32 arithmetic is exact) mixed with default-generator
+# instances.
+ENV_CFG = {
+    "default": {},
+    "chk": {"env": {"check_solution": True}},      # reward through get_reward = checker + _get_reward
+    "trl": {"env": {"_torchrl_mode": True}},       # step through _torchrl_step
+}
+GEN_CFG = {
+    "tsp": {"box1000": dict(min_loc=1000.0, max_loc=1001.0), "boxneg": dict(min_loc=-1.0, max_loc=1.0),
+            "box100": dict(min_loc=0.0, max_loc=100.0), "boxtiny": dict(min_loc=0.5, max_loc=0.5 + 2.0 ** -6),
+            "normal": dict(loc_distribution="normal", loc_mean=50.0, loc_std=0.25)},
+    "atsp": {"notmat": dict(tmat_class=False), "dist10": dict(min_dist=5.0, max_dist=10.0, tmat_class=False),
+             "dist1000": dict(min_dist=1000.0, max_dist=1001.0), "disttiny": dict(min_dist=0.0, max_dist=2.0 ** -10)},
+    "pdp": {"box1000": dict(min_loc=1000.0, max_loc=1001.0), "boxneg": dict(min_loc=-1.0, max_loc=1.0),
+            "box100": dict(min_loc=0.0, max_loc=100.0), "depotcenter": dict(depot_distribution="center"),
+            "depotuniform": dict(depot_distribution="uniform", min_loc=10.0, max_loc=12.0)},
+    "smtwtp": {"span": dict(min_time_span=2.0, max_time_span=3.0), "w10": dict(min_job_weight=1.0, max_job_weight=10.0),
+               "pt100": dict(min_process_time=1.0, max_process_time=100.0, max_time_span=1000.0),
+               "big": dict(min_process_time=100.0, max_process_time=1000.0, min_job_weight=10.0, max_job_weight=1000.0,
+                           min_time_span=0.0, max_time_span=20000.0)},
+}
+K_GEN = 30  # generic-stream values are passed to the model as integers in units of 2^-30
+
+
+def f32(x: float) -> float:
+    return float(torch.tensor(x, dtype=torch.float32))
+
+
+def q(x: float, K: int) -> int:
+    """float → integer in units of 2^-K (exact whenever x is on that grid)"""
+    return int((Fraction(x) * (1 << K)).__round__())
+
+
 class EqAdapter(envcorr.Adapter):
     lean_env = "?"
+    gen_family = "?"
     has_batch_op = False
+    BIG = [26, 50, 101]
 
     def n_of(self, inst):
         return inst["n"]
@@ -70,40 +113,113 @@ class EqAdapter(envcorr.Adapter):
         return inst["n"]
 
     def sizes(self, tier):
-        return [1, 2, 3, 5, 8] if tier == "quick" else [1, 2, 3, 5, 8, 13, 20]
+        # a share of instances well above 25 nodes (size-dependent code paths, e.g. cdist's matmul mode)
+        small = [1, 2, 3, 5, 8] if tier == "quick" else [1, 2, 3, 5, 8, 13, 20]
+        return small * 3 + self.BIG
+
+    def small_sizes(self, tier):
+        return [1, 2, 3, 5, 8]
 
     def feasible_key(self):  # reply field that judges checker soundness
         return "feas"
+
+    def variants(self):
+        return [{}] * 3 + [{"cfg": c} for c in ("chk", "trl")] + [{"cfg": c} for c in GEN_CFG[self.gen_family]]
+
+    def cfg_parts(self, cfg):
+        env_kw = dict(ENV_CFG.get(cfg, {}).get("env", {}))
+        gen_kw = GEN_CFG[self.gen_family].get(cfg)
+        return env_kw, gen_kw
+
+    def make_generator(self, n, gen_kw):
+        raise NotImplementedError
+
+    def from_generator(self, rng, n, gen_kw, cfg):
+        """one instance drawn from the repo's own generator (seeded from the harness PRNG)"""
+        torch.manual_seed(rng.getrandbits(31))
+        td = self.make_generator(n, gen_kw or {})(batch_size=[1])
+        inst = self.inst_of_td(td, n)
+        inst.update(kind="gen", exact=False, cfg=cfg, K=K_GEN)
+        return inst
+
+    # value (as an exact rational) of one unit of the model's reward / objective integers
+    def unit(self, inst) -> Fraction:
+        return Fraction(1, 1 << inst["K"])
+
+    def time_unit(self, inst) -> Fraction:
+        return self.unit(inst)
+
+    # magnitude the float32 rounding error of the reward scales with
+    def magnitude(self, inst, actions, obj_units: int) -> Fraction:
+        return abs(obj_units) * self.unit(inst)
 
 
 # ------------------------------------------------------------------------------------------------
 class TspAdapter(EqAdapter):
     name = "tsp"
     lean_env = "tsp"
+    gen_family = "tsp"
     has_batch_op = True
 
-    def make_env(self, **kw):
+    def make_env(self, cfg="default", **kw):
         from rl4co.envs.routing.tsp.env import TSPEnv
 
-        return SizedEnv(lambda n: TSPEnv(generator_params=dict(num_loc=n), check_solution=False),
+        env_kw, gen_kw = self.cfg_parts(cfg)
+        env_kw.setdefault("check_solution", False)
+        return SizedEnv(lambda n: TSPEnv(generator_params=dict(num_loc=n, **(gen_kw or {})), **env_kw),
                         lambda td: td["locs"].shape[-2])
 
-    def kinds(self):
-        return ["random", "dup"]
+    def make_generator(self, n, gen_kw):
+        from rl4co.envs.routing.tsp.generator import TSPGenerator
 
-    def gen_instance(self, rng, n, kind="random"):
-        pts = geom.gen_points(rng, n)
-        if kind == "dup" and n >= 2:
-            for _ in range(rng.randint(1, max(1, n // 2))):
-                pts[rng.randrange(n)] = pts[rng.randrange(n)]
-        return {"kind": kind, "n": n, "pts": pts}
+        return TSPGenerator(num_loc=n, **gen_kw)
+
+    def inst_of_td(self, td, n):
+        return {"n": n, "xy": [[float(v) for v in p] for p in td["locs"][0].tolist()]}
+
+    def kinds(self):
+        return ["random", "dup", "shifted", "scaled", "gen"]
+
+    def n_points(self, n):
+        return n
+
+    def gen_instance(self, rng, n, kind="random", cfg="default"):
+        _, gen_kw = self.cfg_parts(cfg)
+        if gen_kw is not None or kind == "gen":
+            return self.from_generator(rng, n, gen_kw, cfg)
+        m = self.n_points(n)
+        pts = geom.gen_points(rng, m)
+        if kind == "dup" and m >= 2:
+            for _ in range(rng.randint(1, max(1, m // 2))):
+                pts[rng.randrange(m)] = pts[rng.randrange(m)]
+        # coordinates far from the origin (whole-unit shifts keep the 2^-10 grid exact in float32) and
+        # scaled by powers of two: x = (pt / 2^10 + shift) * 2^s
+        shift = (0, 0)
+        s = 0
+        if kind == "shifted" or rng.random() < (0.5 if n > 20 else 0.15):  # large n AND large magnitude together
+            shift = rng.choice([(1000, 1000), (-512, 300), (4000, 0), (0, -2048), (8000, 8000), (1, -1)])
+        if kind == "scaled" or rng.random() < 0.15:
+            s = rng.choice([-6, -3, 3, 7, 10])
+        xy = [[((x + shift[0] * GRID) / GRID) * 2.0 ** s, ((y + shift[1] * GRID) / GRID) * 2.0 ** s] for (x, y) in pts]
+        assert all(f32(v) == v for p in xy for v in p)
+        inst = {"kind": kind, "exact": True, "cfg": cfg, "K": 20, "n": n, "pts": pts, "shift": shift, "s": s, "xy": xy}
+        return inst
+
+    def D_units(self, inst):
+        if inst["exact"]:
+            D = geom.D_ticks(inst["pts"])
+            s = inst["s"]
+            return [[v << s if s >= 0 else v >> -s for v in row] for row in D] if s else D
+        xy, K = inst["xy"], inst["K"]
+        return [[q(math.hypot(a[0] - b[0], a[1] - b[1]), K) for b in xy] for a in xy]
 
     def to_td(self, insts):
-        locs = torch.tensor([geom.to_unit(i["pts"]) for i in insts], dtype=torch.float32)
+        locs = torch.tensor([i["xy"] for i in insts], dtype=torch.float32)
         return TensorDict({"locs": locs}, batch_size=[len(insts)])
 
     def line(self, op, inst, actions):
-        return f"tspfam.tsp.{op} {inst['n']} | {_flat(geom.D_ticks(inst['pts']))} | {_acts(actions)}"
+        D = _flat(self.D_units(inst)) if op == "episode" else "0"
+        return f"tspfam.tsp.{op} {inst['n']} | {D} | {_acts(actions)}"
 
     def handbuilt(self, rng, inst):
         n = inst["n"]
@@ -121,19 +237,34 @@ class TspAdapter(EqAdapter):
 class AtspAdapter(TspAdapter):
     name = "atsp"
     lean_env = "atsp"
+    gen_family = "atsp"
 
-    def make_env(self, **kw):
+    def make_env(self, cfg="default", **kw):
         from rl4co.envs.routing.atsp.env import ATSPEnv
 
-        return SizedEnv(lambda n: ATSPEnv(generator_params=dict(num_loc=n), check_solution=False),
+        env_kw, gen_kw = self.cfg_parts(cfg)
+        env_kw.setdefault("check_solution", False)
+        return SizedEnv(lambda n: ATSPEnv(generator_params=dict(num_loc=n, **(gen_kw or {})), **env_kw),
                         lambda td: td["cost_matrix"].shape[-1])
 
-    def kinds(self):
-        return ["random", "diag", "skew"]
+    def make_generator(self, n, gen_kw):
+        from rl4co.envs.routing.atsp.generator import ATSPGenerator
 
-    def gen_instance(self, rng, n, kind="random"):
-        # any dyadic matrix: entries k / 2^10, asymmetric; `diag`: non-zero diagonal and some zero arcs;
-        # `skew`: M[a][b] and M[b][a] differ by a lot, so a wrong roll direction cannot cancel out
+        return ATSPGenerator(num_loc=n, **gen_kw)
+
+    def inst_of_td(self, td, n):
+        return {"n": n, "Mf": [[float(v) for v in row] for row in td["cost_matrix"][0].tolist()]}
+
+    def kinds(self):
+        return ["random", "diag", "skew", "big", "tiny", "mixed", "gen"]
+
+    def gen_instance(self, rng, n, kind="random", cfg="default"):
+        _, gen_kw = self.cfg_parts(cfg)
+        if gen_kw is not None or kind == "gen":
+            return self.from_generator(rng, n, gen_kw, cfg)
+        # any dyadic matrix: entries k / 2^10 (times 2^s), asymmetric; `diag`: non-zero diagonal and some
+        # zero arcs; `skew`: M[a][b] and M[b][a] differ by a lot, so a wrong roll direction cannot cancel out;
+        # `big` / `tiny`: large / tiny costs; `mixed`: both in one matrix (float32 sums inexact → tolerance)
         M = [[rng.randrange(0, GRID + 1) for _ in range(n)] for _ in range(n)]
         if kind != "diag":
             for a in range(n):
@@ -146,56 +277,86 @@ class AtspAdapter(TspAdapter):
                 for b in range(a + 1, n):
                     M[a][b] = rng.randrange(0, 8)
                     M[b][a] = rng.randrange(GRID // 2, GRID + 1)
-        return {"kind": kind, "n": n, "M": M}
+        s = {"big": rng.choice([4, 10, 14]), "tiny": rng.choice([-8, -10])}.get(kind, 0)
+        exact = True
+        Mf = [[v * 2.0 ** (s - 10) for v in row] for row in M]
+        if kind == "mixed":
+            exact = False
+            Mf = [[f32(v * 2.0 ** (rng.choice([-14, 0, 12]) - 10) + rng.random() * 1e-3) for v in row] for row in M]
+        return {"kind": kind, "exact": exact, "cfg": cfg, "K": 20 if exact else 40, "n": n, "Mf": Mf}
+
+    def D_units(self, inst):
+        return [[q(v, inst["K"]) for v in row] for row in inst["Mf"]]
 
     def to_td(self, insts):
-        cm = torch.tensor([[[v / GRID for v in row] for row in i["M"]] for i in insts], dtype=torch.float32)
+        cm = torch.tensor([i["Mf"] for i in insts], dtype=torch.float32)
         return TensorDict({"cost_matrix": cm}, batch_size=[len(insts)])
 
     def line(self, op, inst, actions):
-        M = [[v * TPG for v in row] for row in inst["M"]]
-        return f"tspfam.atsp.{op} {inst['n']} | {_flat(M)} | {_acts(actions)}"
+        D = _flat(self.D_units(inst)) if op == "episode" else "0"
+        return f"tspfam.atsp.{op} {inst['n']} | {D} | {_acts(actions)}"
+
+    def magnitude(self, inst, actions, obj_units):
+        n = len(actions)
+        return sum(abs(Fraction(inst["Mf"][actions[k]][actions[(k + 1) % n]])) for k in range(n)) if n else Fraction(0)
 
 
-class PdpAdapter(EqAdapter):
+class PdpAdapter(TspAdapter):
     lean_env = "pdp"
+    gen_family = "pdp"
+    has_batch_op = False
+    BIG = [26, 50, 100]
 
     def __init__(self, force: bool):
         self.force = force
         self.name = "pdpf" if force else "pdp"
 
-    def make_env(self, **kw):
+    def make_env(self, cfg="default", **kw):
         from rl4co.envs.routing.pdp.env import PDPEnv
 
-        return SizedEnv(lambda n: PDPEnv(generator_params=dict(num_loc=n), force_start_at_depot=self.force,
-                                         check_solution=False),
+        env_kw, gen_kw = self.cfg_parts(cfg)
+        env_kw.setdefault("check_solution", False)
+        return SizedEnv(lambda n: PDPEnv(generator_params=dict(num_loc=n, **(gen_kw or {})), force_start_at_depot=self.force,
+                                         **env_kw),
                         lambda td: td["locs"].shape[-2])
 
+    def make_generator(self, n, gen_kw):
+        from rl4co.envs.routing.pdp.generator import PDPGenerator
+
+        return PDPGenerator(num_loc=n, **gen_kw)
+
+    def inst_of_td(self, td, n):
+        xy = [[float(v) for v in td["depot"][0].tolist()]] + [[float(v) for v in p] for p in td["locs"][0].tolist()]
+        return {"n": n, "h": n // 2, "force": int(self.force), "xy": xy}
+
     def sizes(self, tier):  # number of customers (even)
-        return [2, 4, 6, 8] if tier == "quick" else [2, 4, 6, 8, 12, 20]
+        small = [2, 4, 6, 8] if tier == "quick" else [2, 4, 6, 8, 12, 20]
+        return small * 3 + self.BIG
 
-    def kinds(self):
-        return ["random", "dup"]
+    def small_sizes(self, tier):
+        return [2, 4, 6, 8]
 
-    def gen_instance(self, rng, n, kind="random"):
+    def n_points(self, n):
+        return n + 1
+
+    def gen_instance(self, rng, n, kind="random", cfg="default"):
         h = max(1, (n + 1) // 2)
         n = 2 * h
-        pts = geom.gen_points(rng, n + 1)
-        if kind == "dup":
-            for _ in range(rng.randint(1, h)):
-                pts[rng.randrange(n + 1)] = pts[rng.randrange(n + 1)]
-        return {"kind": kind, "n": n, "h": h, "force": int(self.force), "pts": pts}
+        inst = TspAdapter.gen_instance(self, rng, n, kind, cfg)
+        inst.update(n=n, h=h, force=int(self.force))
+        return inst
 
     def step_bound(self, inst):
         return inst["n"] + (1 if self.force else 0)
 
     def to_td(self, insts):
-        locs = torch.tensor([geom.to_unit(i["pts"][1:]) for i in insts], dtype=torch.float32)
-        depot = torch.tensor([geom.to_unit(i["pts"][:1])[0] for i in insts], dtype=torch.float32)
+        locs = torch.tensor([i["xy"][1:] for i in insts], dtype=torch.float32)
+        depot = torch.tensor([i["xy"][0] for i in insts], dtype=torch.float32)
         return TensorDict({"locs": locs, "depot": depot}, batch_size=[len(insts)])
 
     def line(self, op, inst, actions):
-        return f"tspfam.pdp.{op} {inst['h']} {inst['force']} | {_flat(geom.D_ticks(inst['pts']))} | {_acts(actions)}"
+        D = _flat(self.D_units(inst)) if op == "episode" else "0"
+        return f"tspfam.pdp.{op} {inst['h']} {inst['force']} | {D} | {_acts(actions)}"
 
     def feasible_key(self):
         return "feasT"
@@ -226,47 +387,85 @@ class PdpAdapter(EqAdapter):
 class SmtwtpAdapter(EqAdapter):
     name = "smtwtp"
     lean_env = "smtwtp"
+    gen_family = "smtwtp"
     has_checker = False
 
-    def make_env(self, **kw):
+    def make_env(self, cfg="default", **kw):
         from rl4co.envs.scheduling.smtwtp.env import SMTWTPEnv
 
-        return SizedEnv(lambda n: SMTWTPEnv(generator_params=dict(num_job=n), check_solution=False),
+        env_kw, gen_kw = self.cfg_parts(cfg)
+        env_kw.setdefault("check_solution", False)
+        return SizedEnv(lambda n: SMTWTPEnv(generator_params=dict(num_job=n, **(gen_kw or {})), **env_kw),
                         lambda td: td["job_due_time"].shape[-1] - 1)
 
-    def kinds(self):
-        return ["random", "tight", "loose"]
+    def make_generator(self, n, gen_kw):
+        from rl4co.envs.scheduling.smtwtp.generator import SMTWTPGenerator
 
-    def gen_instance(self, rng, n, kind="random"):
-        p = [rng.randint(1, 9) for _ in range(n)]
-        w = [rng.randint(0, 5) for _ in range(n)]
-        tot = sum(p)
-        if kind == "tight":  # due dates hit exactly by some order (tardiness 0 boundary) or all early
-            d = [rng.choice([0, p[k], tot, rng.randint(0, tot)]) for k in range(n)]
-        elif kind == "loose":
-            d = [rng.randint(tot, 2 * tot) for _ in range(n)]
-        else:
+        return SMTWTPGenerator(num_job=n, **gen_kw)
+
+    def inst_of_td(self, td, n):
+        g = lambda k: [float(v) for v in td[k][0].tolist()]
+        return {"n": n, "p": g("job_process_time"), "d": g("job_due_time"), "w": g("job_weight")}
+
+    def kinds(self):
+        return ["random", "tight", "loose", "large", "huge", "gen"]
+
+    def gen_instance(self, rng, n, kind="random", cfg="default"):
+        _, gen_kw = self.cfg_parts(cfg)
+        if gen_kw is not None or kind == "gen":
+            inst = self.from_generator(rng, n, gen_kw, cfg)
+            return inst
+        exact = True
+        if kind == "large":
+            # large times and weights that stay exact in float32: multiples of 64, power-of-two weights
+            p = [64 * rng.randint(1, 64) for _ in range(n)]
+            w = [rng.choice([0, 1, 2, 4, 8, 16, 32, 64]) for _ in range(n)]
+            tot = sum(p)
+            d = [64 * rng.randint(0, tot // 64) for _ in range(n)]
+        elif kind == "huge":
+            # arbitrary large integers: float32 sums are inexact → tolerance comparison
+            exact = False
+            p = [rng.randint(1, 10000) for _ in range(n)]
+            w = [rng.randint(0, 1000) for _ in range(n)]
+            tot = sum(p)
             d = [rng.randint(0, tot) for _ in range(n)]
+        else:
+            p = [rng.randint(1, 9) for _ in range(n)]
+            w = [rng.randint(0, 5) for _ in range(n)]
+            tot = sum(p)
+            if kind == "tight":  # due dates hit exactly by some order (tardiness 0 boundary) or all early
+                d = [rng.choice([0, p[k], tot, rng.randint(0, tot)]) for k in range(n)]
+            elif kind == "loose":
+                d = [rng.randint(tot, 2 * tot) for _ in range(n)]
+            else:
+                d = [rng.randint(0, tot) for _ in range(n)]
         # dummy node 0: the bundled generator puts zeros there; hand-supplied data may hold anything
         z = [0, 0, 0] if rng.random() < 0.5 else [rng.randint(1, 9), rng.randint(0, 9), rng.randint(1, 5)]
-        return {"kind": kind, "n": n, "p": [z[0]] + p, "d": [z[1]] + d, "w": [z[2]] + w}
+        return {"kind": kind, "exact": exact, "cfg": cfg, "K": 0, "n": n, "p": [float(z[0])] + [float(v) for v in p],
+                "d": [float(z[1])] + [float(v) for v in d], "w": [float(z[2])] + [float(v) for v in w]}
 
     def to_td(self, insts):
-        f = lambda key: torch.tensor([[float(v) for v in i[key]] for i in insts], dtype=torch.float32)
+        f = lambda key: torch.tensor([i[key] for i in insts], dtype=torch.float32)
         return TensorDict({"job_due_time": f("d"), "job_weight": f("w"), "job_process_time": f("p")},
                           batch_size=[len(insts)])
 
     def line(self, op, inst, actions):
-        return (f"tspfam.smtwtp.{op} {inst['n']} | {_acts(inst['p'])} | {_acts(inst['d'])} | {_acts(inst['w'])} | "
-                f"{_acts(actions)}")
+        K = inst["K"]
+        qq = lambda xs: _acts([q(v, K) for v in xs])
+        return f"tspfam.smtwtp.{op} {inst['n']} | {qq(inst['p'])} | {qq(inst['d'])} | {qq(inst['w'])} | {_acts(actions)}"
 
-    def real_reward_ticks(self, env, td, actions):  # values are plain integers here, not ticks
-        out = []
-        for v in env._get_reward(td, actions).flatten().tolist():
-            if v != int(v):
-                raise ValueError(f"non-integral reward {v}")
-            out.append(int(v))
-        return out
+    def unit(self, inst):  # weight × time
+        return Fraction(1, 1 << (2 * inst["K"]))
+
+    def time_unit(self, inst):
+        return Fraction(1, 1 << inst["K"])
+
+    def magnitude(self, inst, actions, obj_units):
+        t, m = Fraction(0), Fraction(0)
+        for a in actions:
+            t += Fraction(inst["p"][a])
+            m += abs(Fraction(inst["w"][a])) * (t + abs(Fraction(inst["d"][a])))
+        return m
 
     def enumerate_solutions(self, inst):
         for p in itertools.permutations(range(1, inst["n"] + 1)):
@@ -276,20 +475,133 @@ class SmtwtpAdapter(EqAdapter):
 TSP, ATSP, PDP, PDPF, SM = TspAdapter(), AtspAdapter(), PdpAdapter(False), PdpAdapter(True), SmtwtpAdapter()
 
 
+def pick_env_n(ctx, ad: EqAdapter, n: int):
+    """configuration for a batch of size-n instances: large instances get a magnitude / box configuration half
+    of the time (size-dependent code paths only misbehave together with unusual magnitudes)"""
+    mags = [c for c in GEN_CFG[ad.gen_family] if c not in ("notmat", "depotcenter", "span")]
+    if n > 20 and ctx.rng.random() < 0.5:
+        var = {"cfg": ctx.rng.choice(mags)}
+        ctx.count(f"{ad.name}.variant=cfg={var['cfg']}")
+        return ad.env_for(var), var
+    return envcorr.pick_env(ctx, ad)
+
+
 # ------------------------------------------------------------------------------------------------
-# C02 for equal-length families
+# rewards: exact rationals of the real float32 values against the model's integers
 # ------------------------------------------------------------------------------------------------
-def check_termination_eq(ctx, ad: EqAdapter, episodes_quick=24, episodes_thorough=400):
-    """No dead end before the last step; every row finishes after exactly `bound` steps, all rows of the
-    batch at the same step (so the all-False mask after the last step is never fed to a policy); `done`
-    does not revert, even when a finished batch is stepped once more with an arbitrary node."""
-    env = ad.make_env()
+class RewardShape(Exception):
+    pass
+
+
+def real_rewards(env, td, ep, var):
+    """exact rational value of every row's reward (None for nan/inf); through `get_reward` (checker
+    included) in the `chk` configuration, else `_get_reward`"""
+    acts = rl.actions_tensor(ep)
+    fn = env.get_reward if (var or {}).get("cfg") == "chk" else env._get_reward
+    r = fn(td, acts)
+    B = acts.shape[0]
+    if r.numel() != B:
+        raise RewardShape(f"reward has shape {list(r.shape)} for a batch of {B} instances")
+    out = []
+    for v in r.flatten().tolist():
+        out.append(Fraction(float(v)) if math.isfinite(v) else None)
+    return out
+
+
+def judge(ad: EqAdapter, inst, actions, real, units: int) -> str:
+    """`exact` / `close` (within float32 accumulation error) / `far`"""
+    if real is None:
+        return "far"
+    val = units * ad.unit(inst)
+    if real == val:
+        return "exact"
+    tol = ad.magnitude(inst, actions, units) / 50000 + ad.unit(inst) * (len(actions) + 2)
+    return "close" if abs(real - val) <= tol else "far"
+
+
+def same_reward(ad: EqAdapter, inst, actions, a, b) -> bool:
+    """two real rewards of the same instance and actions (solo / batched / other position)"""
+    if a is None or b is None:
+        return a is b
+    if a == b:
+        return True
+    if inst["exact"]:
+        return False
+    return abs(a - b) <= max(abs(a), abs(b)) / 50000
+
+
+def check_reward_eq(ctx, ad: EqAdapter, episodes_quick=150, episodes_thorough=3000):
+    """C03: the real reward against the model's `_get_reward` and against the Spec objective computed by the
+    Lean oracle from the instance and the action list alone.  Exact-stream instances (any size, shifted and
+    scaled coordinates, large / tiny costs) must agree bit for bit; generic-stream instances (the repo's
+    generators under non-default options) within float32 accumulation error."""
     total = ctx.budget(episodes_quick, episodes_thorough)
     done_eps = 0
     while done_eps < total:
         n = ctx.rng.choice(ad.sizes(ctx.tier))
-        B = ctx.rng.choice([1, 2, 3, 5, 8])
-        insts = make_batch(ad, ctx, n, B)
+        env, var = pick_env_n(ctx, ad, n)
+        B = ctx.rng.choice([1, 2, 4]) if n <= 20 else ctx.rng.choice([1, 2, 3])
+        insts = make_batch(ad, ctx, n, B, var)
+        try:
+            td0, ep = run_batch(ctx, ad, env, insts)
+        except EpisodeFailed:
+            done_eps += B
+            continue
+        try:
+            real = real_rewards(env, ep.td, ep, var)
+        except RewardShape as e:
+            ctx.violation(f"{ad.name}:reward-shape", str(e), {"insts": insts, "actions": ep.actions})
+            done_eps += B
+            continue
+        except AssertionError as e:
+            ctx.violation(f"{ad.name}:checker-rejects-feasible", f"get_reward raised on a mask-generated episode: {e}",
+                          {"insts": insts, "actions": ep.actions})
+            done_eps += B
+            continue
+        lines = [ad.line("episode", insts[r], ep.actions[r]) for r in range(B)]
+        replies = ctx.driver.ask_many(lines)
+        for r in range(B):
+            inst = insts[r]
+            f = compare_trace(ctx, ad, inst, ep.actions[r], ep.masks[r], ep.done[r], replies[r], "C03 stream", trace=False)
+            if "reward" not in f:
+                continue
+            ctx.case((ad.name, repr(inst), tuple(ep.actions[r])), nontrivial=real[r] != 0)
+            ctx.count(f"{ad.name}.n={ad.n_of(inst)}")
+            ctx.count(f"{ad.name}.kind={inst['kind']}")
+            vr = judge(ad, inst, ep.actions[r], real[r], int(f["reward"]))
+            vo = judge(ad, inst, ep.actions[r], real[r], ad.reward_sign * int(f["obj"]))
+            bad = (lambda v: v != "exact") if inst["exact"] else (lambda v: v == "far")
+            shown = None if real[r] is None else float(real[r])
+            if bad(vr):
+                ctx.disagreement(f"{ad.name}: reward differs",
+                                 {"inst": inst, "actions": ep.actions[r], "real": shown,
+                                  "model": float(int(f["reward"]) * ad.unit(inst)), "verdict": vr})
+            if bad(vo):
+                ctx.violation(f"{ad.name}:reward-ne-objective",
+                              "reward of the real env differs from the Spec objective",
+                              {"inst": inst, "actions": ep.actions[r], "real_reward": shown,
+                               "spec_objective": float(int(f["obj"]) * ad.unit(inst)), "verdict": vo, "variant": var,
+                               "lean_line": lines[r] if len(lines[r]) < 4000 else lines[r][:4000] + " …"})
+            ctx.count(f"{ad.name}.reward-{vo}")
+            ctx.sample({"env": ad.name, "inst": inst if ad.n_of(inst) <= 8 else {"n": ad.n_of(inst), "kind": inst["kind"]},
+                        "actions": ep.actions[r], "reward": shown, "spec_obj": float(int(f["obj"]) * ad.unit(inst)), "variant": var})
+        done_eps += B
+
+
+# ------------------------------------------------------------------------------------------------
+# C02 for equal-length families
+# ------------------------------------------------------------------------------------------------
+def check_termination_eq(ctx, ad: EqAdapter, episodes_quick=60, episodes_thorough=1000):
+    """No dead end before the last step; every row finishes after exactly `bound` steps, all rows of the
+    batch at the same step (so the all-False mask after the last step is never fed to a policy); `done`
+    does not revert, even when a finished batch is stepped once more with an arbitrary node."""
+    total = ctx.budget(episodes_quick, episodes_thorough)
+    done_eps = 0
+    while done_eps < total:
+        n = ctx.rng.choice(ad.sizes(ctx.tier))
+        env, var = pick_env_n(ctx, ad, n)
+        B = ctx.rng.choice([1, 2, 3, 5, 8]) if n <= 20 else ctx.rng.choice([1, 2, 3])
+        insts = make_batch(ad, ctx, n, B, var)
         try:
             td0, ep = run_batch(ctx, ad, env, insts, nonterm_is_violation=True)
         except EpisodeFailed:
@@ -368,16 +680,22 @@ def _aux_state(td, r):
     return out
 
 
-def check_batch_eq(ctx, ad: EqAdapter, groups_quick=10, groups_thorough=150):
+def _time_ok(ad, inst, real_time, model_units) -> bool:
+    val = int(model_units) * ad.time_unit(inst)
+    real = Fraction(float(real_time))
+    return real == val if inst["exact"] else abs(real - val) <= abs(val) / 50000 + ad.time_unit(inst) * 200
+
+
+def check_batch_eq(ctx, ad: EqAdapter, groups_quick=16, groups_thorough=300):
     """Each row of a batch (unrelated mates, copies of itself, any position, batch size 1..8) against
     (a) the per-instance Lean model, (b) the model's batched step with the code's batch-global flag,
     (c) a real solo run and a real run at another position with the same actions."""
-    env = ad.make_env()
     total = ctx.budget(groups_quick, groups_thorough)
     for g in range(total):
         n = ctx.rng.choice(ad.sizes(ctx.tier))
-        B = ctx.rng.choice([2, 3, 5, 8])
-        insts = make_batch(ad, ctx, n, B)
+        env, var = pick_env_n(ctx, ad, n)
+        B = ctx.rng.choice([2, 3, 5, 8]) if n <= 20 else ctx.rng.choice([2, 3])
+        insts = make_batch(ad, ctx, n, B, var)
         if ctx.rng.random() < 0.5:
             insts[ctx.rng.randrange(B)] = insts[0]
         try:
@@ -388,8 +706,9 @@ def check_batch_eq(ctx, ad: EqAdapter, groups_quick=10, groups_thorough=150):
             ctx.count(f"{ad.name}.dead-end-skipped")
             continue
         try:
-            rew_b = ad.real_reward_ticks(env, ep.td, rl.actions_tensor(ep))
-        except ValueError:
+            rew_b = real_rewards(env, ep.td, ep, var)
+        except RewardShape as e:
+            ctx.violation(f"{ad.name}:batch-dependence:reward-shape", str(e), {"insts": insts, "actions": ep.actions})
             rew_b = None
         replies = ctx.driver.ask_many([ad.line("episode", insts[r], ep.actions[r]) for r in range(B)])
         for r in range(B):
@@ -400,11 +719,20 @@ def check_batch_eq(ctx, ad: EqAdapter, groups_quick=10, groups_thorough=150):
                 if key in aux and fld in f and aux[key] != [int(f[fld])]:
                     ctx.disagreement(f"{ad.name}: {key} of a batched row differs from the solo model",
                                      {"inst": insts[r], "actions": ep.actions[r], "real": aux[key], "model": f[fld], "row": r, "B": B})
-            if "current_time" in aux and "time" in f and [float(f["time"])] != aux["current_time"]:
+            if "current_time" in aux and "time" in f and not _time_ok(ad, insts[r], aux["current_time"][0], f["time"]):
                 ctx.disagreement(f"{ad.name}: current_time differs", {"real": aux["current_time"], "model": f["time"]})
-            if rew_b is not None and "reward" in f and int(f["reward"]) != rew_b[r]:
-                ctx.disagreement(f"{ad.name}: reward of a batched row differs from the solo model",
-                                 {"inst": insts[r], "actions": ep.actions[r], "real": rew_b[r], "model": f["reward"]})
+            if rew_b is not None and "reward" in f:
+                v = judge(ad, insts[r], ep.actions[r], rew_b[r], int(f["reward"]))
+                if (v != "exact") if insts[r]["exact"] else (v == "far"):
+                    ctx.disagreement(f"{ad.name}: reward of a batched row differs from the solo model",
+                                     {"inst": insts[r], "actions": ep.actions[r], "real": None if rew_b[r] is None else float(rew_b[r]),
+                                      "model": float(int(f["reward"]) * ad.unit(insts[r])), "row": r, "B": B})
+                    # the Spec objective equals the model reward (theorem): the batched reward of this row is wrong
+                    ctx.violation(f"{ad.name}:batch-dependence:reward-vs-objective",
+                                  "reward of a row inside a batch differs from the objective of its own instance and actions",
+                                  {"inst": insts[r], "actions": ep.actions[r], "batch_actions": ep.actions, "row": r, "B": B,
+                                   "batched_reward": None if rew_b[r] is None else float(rew_b[r]),
+                                   "objective": float(-int(f["reward"]) * ad.unit(insts[r]))})
         if ad.has_batch_op:  # the model of the batched `_step` (one first-step flag for the whole batch)
             line = f"tspfam.{ad.lean_env}.batch {ad.n_of(insts[0])} | " + " | ".join(_acts(ep.actions[r]) for r in range(B))
             fb = parse_fields(ctx.driver.ask(line))
@@ -439,26 +767,28 @@ def check_batch_eq(ctx, ad: EqAdapter, groups_quick=10, groups_thorough=150):
                               dict(wit, solo=_aux_state(ep1.td, 0), batched=_aux_state(ep.td, r)))
             if rew_b is not None:
                 try:
-                    rew_s = ad.real_reward_ticks(env, ep1.td, rl.actions_tensor(ep1))[0]
-                except ValueError:
-                    rew_s = None
-                if rew_s is not None and rew_s != rew_b[r]:
+                    rew_s = real_rewards(env, ep1.td, ep1, var)[0]
+                except RewardShape:
+                    rew_s = "shape"
+                if rew_s == "shape" or not same_reward(ad, insts[r], ep.actions[r], rew_s, rew_b[r]):
                     ctx.violation(f"{ad.name}:batch-dependence:reward", "reward differs between the solo and the batched run",
-                                  dict(wit, solo_reward=rew_s, batched_reward=rew_b[r]))
+                                  dict(wit, solo_reward=str(rew_s), batched_reward=str(rew_b[r])))
         perm = list(range(B))
         ctx.rng.shuffle(perm)
         try:
             td2, ep2 = run_batch(ctx, ad, env, [insts[p] for p in perm], forced=[ep.actions[p] for p in perm])
-            rew2 = ad.real_reward_ticks(env, ep2.td, rl.actions_tensor(ep2)) if rew_b is not None else None
+            rew2 = real_rewards(env, ep2.td, ep2, var) if rew_b is not None else None
             for k, p in enumerate(perm):
-                if ep2.masks[k] != ep.masks[p] or ep2.done[k] != ep.done[p] or (rew2 is not None and rew2[k] != rew_b[p]) \
+                if ep2.masks[k] != ep.masks[p] or ep2.done[k] != ep.done[p] \
+                        or (rew2 is not None and not same_reward(ad, insts[p], ep.actions[p], rew2[k], rew_b[p])) \
                         or _aux_state(ep2.td, k) != _aux_state(ep.td, p):
                     ctx.violation(f"{ad.name}:batch-dependence:position", "outcome of a row depends on its position in the batch",
                                   {"inst": insts[p], "actions": ep.actions[p], "position_a": p, "position_b": k, "batch": insts})
             ctx.count(f"{ad.name}.reordered-batches")
-        except (EpisodeFailed, ValueError):
+        except (EpisodeFailed, RewardShape):
             pass
-        ctx.sample({"env": ad.name, "n": n, "B": B, "steps": ep.steps})
+        ctx.sample({"env": ad.name, "n": n, "B": B, "steps": ep.steps, "variant": var,
+                    "kinds": [i["kind"] for i in insts], "actions_row0": ep.actions[0][:12]})
 
 
 # ------------------------------------------------------------------------------------------------
@@ -507,15 +837,15 @@ def eq_corruptions(ad: EqAdapter, rng, inst, sol: List[int]) -> List[tuple]:
     return out
 
 
-def check_checker_eq(ctx, ad: EqAdapter, episodes_quick=24, episodes_thorough=300):
-    env = ad.make_env()
+def check_checker_eq(ctx, ad: EqAdapter, episodes_quick=40, episodes_thorough=600):
     total = ctx.budget(episodes_quick, episodes_thorough)
     done_eps = 0
     fk = ad.feasible_key()
     while done_eps < total:
         n = ctx.rng.choice(ad.sizes(ctx.tier))
-        B = ctx.rng.choice([1, 2, 4])
-        insts = make_batch(ad, ctx, n, B)
+        env, var = pick_env_n(ctx, ad, n)
+        B = ctx.rng.choice([1, 2, 4]) if n <= 20 else 1
+        insts = make_batch(ad, ctx, n, B, var)
         try:
             td0, ep = run_batch(ctx, ad, env, insts)
         except EpisodeFailed:
@@ -587,7 +917,7 @@ def tsp_single_node_probe(ctx, prop: str):
             ctx.case((ad.name, "single-node", repr(insts[r]), B, r), nontrivial=B > 1)
             ctx.count(f"tsp.single-node.B={B}")
             obj = int(f.get("obj", "0"))
-            ok = len(vals) == B and rl.SCALE * vals[r] == -obj
+            ok = len(vals) == B and Fraction(vals[r]) == -obj * ad.unit(insts[r])
             if not ok:
                 wit = {"insts": insts, "row": r, "actions": [ep.actions[k] for k in range(B)], "real_reward": vals,
                        "real_reward_shape": list(r_real.shape), "spec_objective_ticks": obj}
@@ -602,17 +932,17 @@ def tsp_single_node_probe(ctx, prop: str):
 # ------------------------------------------------------------------------------------------------
 # C07, SMTWTP clause
 # ------------------------------------------------------------------------------------------------
-def check_smtwtp_perm(ctx, ad: SmtwtpAdapter = None, episodes_quick=40, episodes_thorough=600):
+def check_smtwtp_perm(ctx, ad: SmtwtpAdapter = None, episodes_quick=80, episodes_thorough=1500):
     """Every mask-confined episode is a permutation of the jobs 1..n; the dummy node 0 is never offered
     and never scheduled; `current_time` is the sum of the processing times scheduled so far."""
     ad = ad or SM
-    env = ad.make_env()
     total = ctx.budget(episodes_quick, episodes_thorough)
     done_eps = 0
     while done_eps < total:
         n = ctx.rng.choice(ad.sizes(ctx.tier))
-        B = ctx.rng.choice([1, 2, 4, 6])
-        insts = make_batch(ad, ctx, n, B)
+        env, var = pick_env_n(ctx, ad, n)
+        B = ctx.rng.choice([1, 2, 4, 6]) if n <= 20 else ctx.rng.choice([1, 2])
+        insts = make_batch(ad, ctx, n, B, var)
         try:
             td0, ep = run_batch(ctx, ad, env, insts)
         except EpisodeFailed:
@@ -638,9 +968,10 @@ def check_smtwtp_perm(ctx, ad: SmtwtpAdapter = None, episodes_quick=40, episodes
             if sorted(ep.actions[r]) != list(range(1, n + 1)) and not ep.empty_mask_rows and f.get("feas") == "1":
                 ctx.disagreement("smtwtp: Spec oracle calls a non-permutation feasible", wit)
             t_real = ep.td["current_time"][r].flatten().tolist()
-            if "time" in f and t_real != [float(f["time"])]:
+            if "time" in f and not _time_ok(ad, insts[r], t_real[0], f["time"]):
                 ctx.disagreement("smtwtp: current_time differs", dict(wit, real=t_real, model=f["time"]))
-            ctx.sample({"env": "smtwtp", "inst": insts[r], "actions": ep.actions[r], "spec_feasible": f.get("feas")})
+            ctx.sample({"env": "smtwtp", "inst": insts[r] if n <= 8 else {"n": n, "kind": insts[r]["kind"]},
+                        "actions": ep.actions[r], "spec_feasible": f.get("feas"), "variant": var})
         done_eps += B
 
 
@@ -660,6 +991,13 @@ NOTE = {
     "smtwtp": "SMTWTPEnv modelled per instance (Rl4co/Env/Smtwtp.lean) over integers; the harness uses small integral processing "
               "times / due dates / weights, exact in float32",
 }
+STREAMS = ("input streams: exact stream (hand-built instances on dyadic grids incl. sizes 26/50/101, coordinates shifted up to 8000 "
+           "units and scaled by 2^-6..2^10, large/tiny costs, large times/weights: real float32 values must equal the model bit for "
+           "bit) + generic stream (the repo's own generators under default and non-default options such as min_loc/max_loc, "
+           "distributions, tmat_class, weight/time ranges: values passed to the model as exact 2^-30 multiples, rewards compared "
+           "within 2e-5 of the instance's magnitude); env options check_solution=True (reward through get_reward) and "
+           "_torchrl_mode=True are exercised as variants; generator parameters outside the Lean model are covered by "
+           "correspondence + Spec oracle only")
 NOTHM = "no theorem yet: correspondence + spec oracle only"
 
 
@@ -688,7 +1026,7 @@ def _mods(prop, fam):
 def _reg(prop, fam, run, extra_assumptions=()):
     thms = _thms(prop, fam) if _mods(prop, fam) else []
     register(Unit(prop, fam, run, drivers=DRV, lean_modules=_mods(prop, fam), theorems=thms,
-                  assumptions=[NOTE[fam]] + list(extra_assumptions) + ([] if thms else [NOTHM])))
+                  assumptions=[NOTE[fam], STREAMS] + list(extra_assumptions) + ([] if thms else [NOTHM])))
 
 
 T = Theorem
@@ -768,8 +1106,8 @@ RUNS = {
             "pdp": _both(envcorr.check_feasibility)},
     "C02": {"tsp": lambda c: check_termination_eq(c, TSP), "atsp": lambda c: check_termination_eq(c, ATSP),
             "pdp": _both(check_termination_eq), "smtwtp": lambda c: check_termination_eq(c, SM)},
-    "C03": {"tsp": lambda c: (envcorr.check_reward(c, TSP), tsp_single_node_probe(c, "C03")), "atsp": lambda c: envcorr.check_reward(c, ATSP),
-            "pdp": _both(envcorr.check_reward), "smtwtp": lambda c: envcorr.check_reward(c, SM)},
+    "C03": {"tsp": lambda c: (check_reward_eq(c, TSP), tsp_single_node_probe(c, "C03")), "atsp": lambda c: check_reward_eq(c, ATSP),
+            "pdp": _both(check_reward_eq), "smtwtp": lambda c: check_reward_eq(c, SM)},
     "C04": {"tsp": lambda c: (check_batch_eq(c, TSP), tsp_single_node_probe(c, "C04")), "atsp": lambda c: check_batch_eq(c, ATSP),
             "pdp": _both(check_batch_eq), "smtwtp": lambda c: check_batch_eq(c, SM)},
     "C05": {"tsp": lambda c: envcorr.check_completeness(c, TSP, nmax_quick=4), "atsp": lambda c: envcorr.check_completeness(c, ATSP, nmax_quick=4),
